@@ -78,9 +78,25 @@ impl ChObs {
     }
 }
 
+pub const T_YEAR: u64 = 365 * 86_400 * ONE_S; // beyond 2^53 ns: not exact in f64 seconds
+
+/// Durations of 2^64 ns and more cannot be told from "infinite" on a 64-bit nanosecond clock;
+/// the oracle treats them as T_INF while the real scanner is built with the real Duration.
+pub fn huge_durations() -> [Duration; 5] {
+    [
+        Duration::from_secs(1 << 55), // exactly 1953125 * 2^64 ns: wraps to 0 in u64 nanoseconds
+        Duration::from_secs((1 << 55) + 3),
+        Duration::from_secs(u64::MAX),
+        Duration::from_nanos(u64::MAX) + Duration::from_nanos(7),
+        Duration::new(18_446_744_073, 709_551_616 + 1_500), // 2^64 ns + 1.5 us
+    ]
+}
+
 #[derive(Clone)]
 pub struct PollMon {
     pub real: PollingParameterNumberMessageScanner,
+    /// the Duration the real scanner was created with
+    pub real_timeout: Duration,
     pub now: u64,
     pub timeout: u64,
     pub obs: [ChObs; 16],
@@ -96,6 +112,7 @@ impl PollMon {
         set_mock_time(0);
         PollMon {
             real: PollingParameterNumberMessageScanner::new(dur(timeout)),
+            real_timeout: dur(timeout),
             now: 0,
             timeout,
             obs: [ChObs::default(); 16],
@@ -103,6 +120,14 @@ impl PollMon {
             p5: true,
             p5_rot: 0,
         }
+    }
+
+    /// a scanner with a timeout of 2^64 ns or more (oracle: never expires)
+    pub fn new_huge(d: Duration) -> Self {
+        let mut m = PollMon::new(T_INF);
+        m.real = PollingParameterNumberMessageScanner::new(d);
+        m.real_timeout = d;
+        m
     }
 
     fn hj(&self, path: &dyn Fn() -> Vec<String>, exp: serde_json::Value, got: serde_json::Value) -> serde_json::Value {
@@ -213,9 +238,9 @@ impl PollMon {
                 let r = api("PollingParameterNumberMessageScanner::reset", || real.reset());
                 self.obs = [ChObs::default(); 16];
                 rep.count("poll_resets", 1);
-                let t = self.timeout;
+                let t = self.real_timeout;
                 let fresh = api("PollingParameterNumberMessageScanner::new", || {
-                    PollingParameterNumberMessageScanner::new(dur(t))
+                    PollingParameterNumberMessageScanner::new(t)
                 });
                 if r.is_none() || fresh != Some(self.real) {
                     crate::viol!(rep, 
@@ -257,6 +282,23 @@ impl PollMon {
             return [None, None];
         };
         let outs = outs_of(&got);
+        // carrier twin: StructuredShortMessage / foreign implementor instead of RawShortMessage
+        {
+            let st = m.to_structured();
+            let mut twin = before;
+            let g2 = api("PollingParameterNumberMessageScanner::feed", || twin.feed(&st));
+            let fo: crate::carriers::Foreign = m.to_other();
+            let mut twin3 = before;
+            let g3 = api("PollingParameterNumberMessageScanner::feed", || twin3.feed(&fo));
+            if g2 != Some(got) || twin != self.real || g3 != Some(got) || twin3 != self.real {
+                crate::viol!(
+                    rep,
+                    "C14:result-depends-on-message-representation",
+                    format!("feed({}) returned {:?} for RawShortMessage but {:?} / {:?} for StructuredShortMessage / a foreign implementor (states equal: {} / {})", ev.render(), outs, g2.map(|g| outs_of(&g)), g3.map(|g| outs_of(&g)), twin == self.real, twin3 == self.real),
+                    self.hj(path, json!(format!("{:?}", outs)), json!("differs by carrier"))
+                );
+            }
+        }
         // P5: the mere passage of time never changes what feed returns
         if self.p5 {
             self.p5_rot = self.p5_rot.wrapping_add(1);
